@@ -355,6 +355,17 @@ func EnsureRawValue(in interface{}) reflect.Value {
 // pointers are packed or unpacked to the level of typ, and the elements of
 // generic lists and maps are converted one by one.
 func convertValue(v reflect.Value, typ reflect.Type) (reflect.Value, error) {
+	return convertValueDepth(v, typ, 0)
+}
+
+// _maxConvertDepth bounds the nesting of a conversion: a decoded list or map may contain
+// itself, and a copy of it into a typed destination would never end
+const _maxConvertDepth = 512
+
+func convertValueDepth(v reflect.Value, typ reflect.Type, depth int) (reflect.Value, error) {
+	if depth > _maxConvertDepth {
+		return _zeroValue, newCodecError("convertValue", "value nested deeper than %d (or containing itself) can't be converted to %v", _maxConvertDepth, typ)
+	}
 	if !v.IsValid() {
 		return reflect.Zero(typ), nil
 	}
@@ -384,7 +395,7 @@ func convertValue(v reflect.Value, typ reflect.Type) (reflect.Value, error) {
 		if v.Kind() == reflect.Ptr && v.IsNil() {
 			return reflect.Zero(typ), nil
 		}
-		elem, err := convertValue(v, typ.Elem())
+		elem, err := convertValueDepth(v, typ.Elem(), depth+1)
 		if err != nil {
 			return _zeroValue, err
 		}
@@ -415,7 +426,7 @@ func convertValue(v reflect.Value, typ reflect.Type) (reflect.Value, error) {
 	case kind == reflect.Slice && v.Kind() == reflect.Slice && typ.Elem().Kind() != reflect.Uint8:
 		cv := reflect.MakeSlice(typ, v.Len(), v.Len())
 		for i := 0; i < v.Len(); i++ {
-			item, err := convertValue(v.Index(i), typ.Elem())
+			item, err := convertValueDepth(v.Index(i), typ.Elem(), depth+1)
 			if err != nil {
 				return _zeroValue, err
 			}
@@ -425,11 +436,11 @@ func convertValue(v reflect.Value, typ reflect.Type) (reflect.Value, error) {
 	case kind == reflect.Map && v.Kind() == reflect.Map:
 		cv := reflect.MakeMapWithSize(typ, v.Len())
 		for _, k := range v.MapKeys() {
-			ck, err := convertValue(k, typ.Key())
+			ck, err := convertValueDepth(k, typ.Key(), depth+1)
 			if err != nil {
 				return _zeroValue, err
 			}
-			ce, err := convertValue(v.MapIndex(k), typ.Elem())
+			ce, err := convertValueDepth(v.MapIndex(k), typ.Elem(), depth+1)
 			if err != nil {
 				return _zeroValue, err
 			}
